@@ -8,6 +8,7 @@ PLANS = {
     "C03": {"profiles": ["c03_gc_twin"], "quick": 1000, "thorough": 40000},
     "C04": {"profiles": ["c04_sequential"], "quick": 5000, "thorough": 100000},
     "C05": {"profiles": ["c05_fault_sweep"], "quick": 5000, "thorough": 100000},
+    "C12": {"profiles": ["c12_presence", "c12_presenceless"], "quick": 2500, "thorough": 100000},
     "C08": {"profiles": ["c08_atomic_update"], "quick": 5000, "thorough": 100000},
     "C06": {"profiles": ["c06_clocks", "c06_clocks", "c06_gcfree"], "quick": 5000, "thorough": 100000},
     "C02": {"profiles": ["c02_snapshots", "c02_snapshots_faults"], "quick": 5000, "thorough": 100000},
